@@ -143,18 +143,25 @@ Direct(k, v) ==
   /\ UNCHANGED <<prune, root2, contents2, bopen, cache, corder, broot, brc, bcontents,
                  bops, lost>>
 
-\* the j-th database write of a non-pruning direct operation raises (C04)
+\* the j-th database write of a direct operation raises.  Non-pruning tries: C04.  Pruning tries
+\* (feature "failwritep"; no listed property speaks about it, the action records what the code
+\* does): _set_db_value counts a node right after writing it and nothing is rolled back, so the
+\* writes before the failing one stay in the database WITH their counts raised; the prunes the
+\* call had pending are dropped.  PruneExact / RcTrue do not survive this; Readable and
+\* RcNeverLow do.
+SeqBag(ws, n) == [x \in {ws[i] : i \in 1..n} |-> Cardinality({i \in 1..n : ws[i] = x})]
 FailWrite(k, v, j) ==
-  /\ "failwrite" \in Features /\ ~bopen /\ ~prune
+  /\ "failwrite" \in Features /\ ~bopen /\ (prune => "failwritep" \in Features)
   /\ WithinLive(contents, k, v)
   /\ LET pl == Plan(root, k, v, Only(db))
          ws == WriteSeq(pl) IN
      /\ pl.miss = 0
      /\ j \in 1..Len(ws)
      /\ db' = db \cup {ws[i] : i \in 1..(j - 1)}
+     /\ rc' = IF prune THEN NormBag(BagAdd(rc, SeqBag(ws, j - 1))) ELSE rc
      /\ res' = OutKind("ioerror")
      /\ Log([a |-> "failwrite", i |-> 1, k |-> k, v |-> JV(v), j |-> j, out |-> JOut(res')])
-  /\ UNCHANGED <<prune, root, rc, contents, root2, contents2, bopen, cache, corder, broot,
+  /\ UNCHANGED <<prune, root, contents, root2, contents2, bopen, cache, corder, broot,
                  brc, bcontents, bops, lost, past>>
 
 \* handle 2: a fresh non-pruning HexaryTrie(db, r) / at_root(r) on any root ever held
@@ -420,6 +427,13 @@ OpenBatchIsolated == [][(bopen /\ bopen') =>
 PruneExact == (prune /\ ~bopen /\ "lose" \notin Features) => db = Stored(root)
 RcTrue == (prune /\ ~bopen /\ "lose" \notin Features) => rc = TrueRc(root)
 RegenAgrees == TrueRc(root) = RegenRc(root)
+\* what is left of the two above once a write has failed on a pruning trie: no count is ever below
+\* the true one (so nothing live is ever pruned), and whatever is in the database beyond the live
+\* nodes is counted
+RcNeverLow == (prune /\ ~bopen /\ "lose" \notin Features) =>
+                 \A n \in DOMAIN TrueRc(root) : Cnt(rc, n) >= TrueRc(root)[n]
+LeftoversCounted == (prune /\ ~bopen /\ "lose" \notin Features) =>
+                       \A n \in db \ Stored(root) : Cnt(rc, n) >= 1
 BatchRcTrue == (prune /\ bopen /\ "lose" \notin Features) => brc = TrueRc(broot)
 
 \* C07  (design level) no write precedes a read in any operation, hence a call
